@@ -26,6 +26,13 @@ Theorem C24_leave_block_scope_balance_refuted :
 Proof. exact leave_block_leaks_scope. Qed.
 Print Assumptions C24_leave_block_scope_balance_refuted.
 
+(* the same off-by-one for the Goto that skips an ELSE branch ending with a block *)
+Theorem C24_else_block_scope_balance_refuted :
+  (exists st, exec 20 else_block_prog (init_state [] []) = (ONormal, st) /\ assocN 0%N (users st) = Some (Some 1))
+  /\ (exists st, call else_block_prog 100 [] [] = MDone st /\ assocN 0%N (users st) = Some (Some 2) /\ length (scopes st) = 2%nat).
+Proof. exact else_block_leaks_scope. Qed.
+Print Assumptions C24_else_block_scope_balance_refuted.
+
 (* compiler correctness is false when a label is reused after a LOOP/REPEAT: the compile-time label table is never
    popped, ITERATE resolves to the finished loop; the definition terminates with @u0 = 3, the machine does not finish *)
 Theorem C24_reused_label_agreement_refuted :
